@@ -26,9 +26,12 @@ def jobs(tier):
                            params=dict(policy=pol, override=ov, k=k, props=P), cost=2 ** k))
     for k in ks:
         js.append(dict(name=f'H2:fused:k{k}', module='harness.elems', fn='h_fused', params=dict(k=k, props=P)))
-        for var in (['ssmf80', 'nzdf120_lumped'] if tier == 'quick' else list(elems.FIBER_VARIANTS)):
+        for var in (['ssmf80', 'nzdf120_lumped', 'negdisp60'] if tier == 'quick' else list(elems.FIBER_VARIANTS)):
             js.append(dict(name=f'H2:fiber:{var}:k{k}', module='harness.elems', fn='h_fiber',
                            params=dict(variant=var, k=k, props=P), cost=3 ** k))
+    for pumps in ('above', 'inside'):
+        js.append(dict(name=f'H2:ramanfiber:pumps_{pumps}:k3', module='harness.elems', fn='h_raman_fiber',
+                       params=dict(pumps=pumps, k=3, props=P), cost=50))
     for var in elems.EDFA_QUICK:
         for k in ks[1:]:
             js.append(dict(name=f'H2:edfa:{var}:k{k}', module='harness.elems', fn='h_edfa',
